@@ -87,7 +87,9 @@ def hook_specs(draw, horizon: int = 25, max_hooks: int = 5):
     for _ in range(draw(st.integers(1, max_hooks))):
         typ = draw(st.sampled_from(HOOK_TYPES))
         before = False if typ == "execution" else draw(st.booleans())
-        tl = None if draw(st.integers(0, 2)) == 0 else sorted(draw(st.sets(st.integers(0, horizon), min_size=1, max_size=6)))
+        r = draw(st.integers(0, 8))
+        # no list (always), an empty list (never: e.g. a computed window of length 0), or 1-6 distinct times
+        tl = None if r < 3 else ([] if r == 3 else sorted(draw(st.sets(st.integers(0, horizon), min_size=1, max_size=6))))
         cls = inst = None
         if typ == "market":
             if draw(st.integers(0, 2)) == 0:
